@@ -72,6 +72,10 @@ func impostor() {
 		blk, _ := pem.Decode([]byte(announcedPEM))
 		parts[5] = base64.RawStdEncoding.EncodeToString(blk.Bytes)
 	case "nocert": // the line is passed on as the plaintext child printed it
+	case "legacyline": // a plugin from before the protocol field: core version, app version, network, address
+		if len(parts) > 4 {
+			parts = parts[:4]
+		}
 	case "dropmux": // an old plugin: never prints the multiplexing field
 		if len(parts) > 6 {
 			parts = parts[:6]
